@@ -1,6 +1,6 @@
 From Coq Require Extraction.
 From Coq Require Import ExtrOcamlBasic.
-From AIT Require Import Base.Vio Base.Qx Base.Mdp Base.MdpExec C02.Model C03.Model C03.Spec.
+From AIT Require Import Base.Vio Base.Qx Base.Mdp Base.MdpExec C02.Model C02.Spec C03.Model C03.Spec.
 Extraction "model.ml" vio_kit wf_mdpb EV_r tau_step_r tail_r Vmax_r blind_run fib_run fib_run_from qmdp_run fib_op
   lin_surface best usurf lb_event_ok ub_point_ok ub_corner_ok supersol_okb best_vec backup_vec bca_alpha
-  best_conservative rew_at tau_step dot qget qcol Rall minl.
+  best_conservative rew_at tau_step dot qget qcol Rall minl check_vf ub_run mset ub_backup.
